@@ -79,8 +79,14 @@ func classifyIterErr(err error) string {
 	switch {
 	case reInjected.MatchString(msg):
 		return "driver" + reInjected.FindStringSubmatch(msg)[1]
-	case strings.Contains(msg, "context canceled") || strings.Contains(msg, "context deadline exceeded"):
+	case errors.Is(err, context.Canceled) || errors.Is(err, context.DeadlineExceeded):
 		return "ctx"
+	case strings.Contains(msg, "context canceled") || strings.Contains(msg, "context deadline exceeded"):
+		// mentions the context's error but is not it (errors.Is fails): the caller cannot recognise it.
+		// Only held against the implementation when the context was done before the query was run
+		// (normCtxLost); after a cancellation in the middle of an iteration C14 asks for an error, not
+		// for this one.
+		return "ctxlost"
 	case errors.Is(err, sqlair.ErrNoRows) || strings.Contains(msg, "no rows in result set"):
 		return "norows"
 	case strings.HasPrefix(msg, "invalid input parameter"):
@@ -549,7 +555,7 @@ func cmdIter(args []string) int {
 			if len(prefix) > 0 {
 				for _, s := range scripts {
 					req := fmt.Sprintf("(iter %s (%s))", s.sexp(), strings.Join(prefix, " "))
-					emit(req, runIterOps(s, prefix), true)
+					emit(req, normCtxLost(s, runIterOps(s, prefix)), true)
 				}
 			}
 			if len(prefix) == *exh {
@@ -584,7 +590,7 @@ func cmdIter(args []string) int {
 				ops = append(ops, "close")
 			}
 			st.Kinds["iter"]++
-			emit(fmt.Sprintf("(iter %s (%s))", s.sexp(), strings.Join(ops, " ")), runIterOps(s, ops), len(ops) > 1)
+			emit(fmt.Sprintf("(iter %s (%s))", s.sexp(), strings.Join(ops, " ")), normCtxLost(s, runIterOps(s, ops)), len(ops) > 1)
 		case 5, 6, 7:
 			oc := r.pick([]string{"none", "none", "none", "nonnil", "nil"})
 			d := r.pick([]string{"valid", "valid", "valid", "none", "(invalid 3)", "(invalid 4)", "(invalid 5)"})
@@ -592,7 +598,7 @@ func cmdIter(args []string) int {
 				d = "none"
 			}
 			st.Kinds["get"]++
-			emit(fmt.Sprintf("(get %s %s %s)", s.sexp(), oc, d), runGet(s, oc, d), true)
+			emit(fmt.Sprintf("(get %s %s %s)", s.sexp(), oc, d), normCtxLost(s, runGet(s, oc, d)), true)
 		default:
 			g := getAllArgs{outcome: r.pick([]string{"none", "none", "none", "nonnil", "nil"}), badSlice: -1, badElem: -1, hasSlices: true, dests: "valid"}
 			switch r.intn(12) {
@@ -618,7 +624,7 @@ func cmdIter(args []string) int {
 				return fmt.Sprint(x)
 			}
 			st.Kinds["getall"]++
-			emit(fmt.Sprintf("(getall %s %s %s %d %s %s)", s.sexp(), g.outcome, on(g.badSlice), b2i(g.hasSlices), on(g.badElem), g.dests), runGetAll(s, g), true)
+			emit(fmt.Sprintf("(getall %s %s %s %d %s %s)", s.sexp(), g.outcome, on(g.badSlice), b2i(g.hasSlices), on(g.badElem), g.dests), normCtxLost(s, runGetAll(s, g)), true)
 		}
 		caseStart.Store(0)
 	}
@@ -633,6 +639,14 @@ func cmdIter(args []string) int {
 }
 
 // iterOracles evaluates the properties directly on the observed outputs.
+// normCtxLost keeps the "ctxlost" class only for scripts whose context is done before the query is run.
+func normCtxLost(s iterScript, line string) string {
+	if s.runKind == "ctxerr" {
+		return line
+	}
+	return strings.ReplaceAll(line, "ctxlost", "ctx")
+}
+
 func iterOracles(req, out string, add func(violation)) {
 	v := func(prop, name, detail string) { add(violation{prop, name, hx(req), detail}) }
 	if strings.HasPrefix(out, "PANIC") {
@@ -642,6 +656,11 @@ func iterOracles(req, out string, add func(violation)) {
 	}
 	f := strings.Fields(out)
 	acct := f[len(f)-1]
+	// C20 / C14: an operation that fails because of the context must fail with the context's error
+	// (errors.Is), not with a new error that merely quotes its text
+	if strings.Contains(out, "ctxlost") {
+		v("C20", "context-error-not-returned", out)
+	}
 	// C13: after Get / GetAll return, or after a Close in an op sequence, an opened result set is closed exactly once
 	endsWithClose := strings.HasPrefix(req, "(iter ") && strings.HasSuffix(req, "close))")
 	if strings.HasPrefix(req, "(get ") || strings.HasPrefix(req, "(getall ") || endsWithClose {
